@@ -247,12 +247,15 @@ func concPlan(oracles []string, pbQuick, pbThorough int, post ...string) func(th
 		for _, s := range tripleScenarios(thorough) {
 			p := concParams{Label: s.label, Cfg: s.cfg, Setup: s.setup, Threads: s.threads, Oracles: oracles, Post: post}
 			ppb := 1
-			if thorough || tripleCore(s.threads) {
-				ppb = 2
+			if (thorough && s.cfg.Executor == "caller") || tripleCore(s.threads) {
+				ppb = 2 // (spawned maintenance goroutines multiply the schedules: the default-executor triples keep one preemption)
 			}
-			jobs = append(jobs, &Job{Scenario: "cache.conc", Params: js(p), Variant: s.variant, PB: ppb, Shards: 1, BudgetS: 120})
+			jobs = append(jobs, &Job{Scenario: "cache.conc", Params: js(p), Variant: s.variant, PB: ppb, Shards: 1, BudgetS: 60})
 		}
 		for _, s := range seqPairScenarios(thorough) {
+			if s.cfg.Executor == "default" && !seqPairCore(s.threads) {
+				continue
+			}
 			p := concParams{Label: s.label, Cfg: s.cfg, Setup: s.setup, Threads: s.threads, Oracles: oracles, Post: post}
 			ppb := 1
 			if thorough && s.cfg.Executor == "caller" && s.cfg.Expiry == "" && seqPairCore(s.threads) {
@@ -266,7 +269,7 @@ func concPlan(oracles []string, pbQuick, pbThorough int, post ...string) func(th
 			if thorough && s.cfg.Executor == "caller" {
 				ppb = 3
 			}
-			jobs = append(jobs, &Job{Scenario: "cache.conc", Params: js(p), Variant: s.variant, PB: ppb, Shards: 1, BudgetS: 60})
+			jobs = append(jobs, &Job{Scenario: "cache.conc", Params: js(p), Variant: s.variant, PB: ppb, Shards: 1, BudgetS: 30})
 		}
 		pb, budget := pbQuick, 60
 		if thorough {
